@@ -64,6 +64,9 @@ instance (priority := low) {α} : GetItem (List α) Nat α :=
 /-- `d[k] = v`: replaces the value of an existing key in place, a new key goes to the end -/
 def setItem {K V} [BEq K] (d : AL K V) (k : K) (v : V) : AL K V := alterAL k v (fun _ => v) d
 
+/-- `del d[k]` for a key that is present (the code tests `k in d` first) -/
+def delItem {K V} [BEq K] (d : AL K V) (k : K) : AL K V := d.filter (fun kv => !(kv.1 == k))
+
 /-- an in-place change of `d[k]` (`d[k].append(x)`, `d[k][j] = v`, …): `KeyError` on a missing key -/
 def updItem {K V} [BEq K] (d : AL K V) (k : K) (f : V → M V) : M (AL K V) :=
   match d with
